@@ -54,6 +54,10 @@ type Script struct {
 	// NoRole is the subject that is never given a role (assign ops naming it are ignored).
 	NoRole int  `json:"no_role"`
 	Ops    []Op `json:"ops"`
+	// FailRelIndex: the relationship indexes of the ontology fail to populate when the
+	// services are opened (storage error on the populate scan); every parent lookup of the
+	// case then goes through the table-scan fallback.
+	FailRelIndex bool `json:"fail_rel_index,omitempty"`
 }
 
 const (
